@@ -4,7 +4,7 @@
    every key type whose comparison is a strict weak order (SWO), hence for all six Go tree types (C11). *)
 From Coq Require Import ZArith NArith List Bool.
 From GB Require Import Model Spec Inv Order OrderProof SearchProof SpecLaws InvProof SearchScanProof
-     UpsertProof DeleteProof HistoryProof KeyOrders.
+     UpsertProof DeleteProof HistoryProof KeyOrders Conc LockInv LockProof ConcProps.
 Import ListNotations.
 Open Scope nat_scope.
 
@@ -215,3 +215,63 @@ Theorem C12_new_tree_usable :
   forall (K V : Type) (ltb : K -> K -> bool) (order : nat), Inv ltb order (Leaf (@nil (K * V))).
 Proof. exact Inv_empty. Qed.
 Print Assumptions C12_new_tree_usable.
+
+(* ====================== concurrent model: lock-table theorems (C09, C10, C05, C07) ======================
+   [reach ltb order progs sched] is the state of the concurrent model after the schedule [sched] (any list of
+   thread ids) of the client programs [progs] started on the empty tree; one thread running first builds any
+   reachable initial tree.  All statements hold for every order, every program set and every schedule. *)
+
+(* C09: when Insert/Update/Delete/Search (or a scan that was closed or ran out) returns, the calling thread
+   holds no node lock and not the tree mutex, on every code path *)
+Theorem C09_returns_hold_nothing :
+  forall (K V : Type) (ltb : K -> K -> bool) order progs sched me s' acq ev (r : ores K V),
+  NoDup (map fst progs) ->
+  cstep ltb order (reach ltb order progs sched) me = Stepped s' acq ev -> In (EReturn r) ev ->
+  held_by me (lk s') = [] /\ tm s' <> Some me.
+Proof. exact reach_returns_hold_nothing. Qed.
+Print Assumptions C09_returns_hold_nothing.
+
+(* C09/C10/C05: a cursor between calls, a cursor hopping to the next leaf, and a thread inside an Update
+   callback each hold exactly one leaf and not the tree mutex *)
+Theorem C09_cursor_and_callback_hold_one_leaf :
+  forall (K V : Type) (ltb : K -> K -> bool) order progs sched t (th : thread K V),
+  NoDup (map fst progs) -> get_thread t (ths (reach ltb order progs sched)) = Some th ->
+  let s := reach ltb order progs sched in
+  (forall leaf i n acc, tpc th = CurRest leaf i n acc -> held_by t (lk s) = [leaf] /\ tm s <> Some t) /\
+  (forall leaf nxt n acc, tpc th = CurWantNext leaf nxt n acc -> held_by t (lk s) = [leaf] /\ tm s <> Some t) /\
+  (forall o leaf m i, tpc th = UpdCallback o leaf m i -> held_by t (lk s) = [leaf] /\ tm s <> Some t).
+Proof. exact reach_cursor_holds_one_leaf. Qed.
+Print Assumptions C09_cursor_and_callback_hold_one_leaf.
+
+Theorem C09_idle_thread_holds_nothing :
+  forall (K V : Type) (ltb : K -> K -> bool) order progs sched t (th : thread K V),
+  NoDup (map fst progs) -> get_thread t (ths (reach ltb order progs sched)) = Some th ->
+  tpc th = Idle -> held_by t (lk (reach ltb order progs sched)) = [] /\ tm (reach ltb order progs sched) <> Some t.
+Proof. exact reach_idle_holds_nothing. Qed.
+Print Assumptions C09_idle_thread_holds_nothing.
+
+(* C10: outside Delete a thread never rests on more than two node locks, and holds the tree mutex only
+   with nothing else (waiting for the root) or with the old root while it locks the fresh right half *)
+Theorem C10_footprint :
+  forall (K V : Type) (ltb : K -> K -> bool) order progs sched t (th : thread K V),
+  NoDup (map fst progs) -> get_thread t (ths (reach ltb order progs sched)) = Some th ->
+  pc_is_delete (tpc th) = false ->
+  let s := reach ltb order progs sched in
+  length (held_by t (lk s)) <= 2 /\
+  (tm s = Some t -> held_by t (lk s) = [] \/ exists o l r, tpc th = InsWantRootRight o l r /\ held_by t (lk s) = [l]).
+Proof. exact reach_footprint. Qed.
+Print Assumptions C10_footprint.
+
+(* C07/C05 (model side): locks are exclusive; what a thread holds is determined by its program counter *)
+Theorem C07_locks_exclusive :
+  forall (K V : Type) (ltb : K -> K -> bool) order (progs : list (tid * list (cop K V))) sched x t1 t2,
+  NoDup (map fst progs) ->
+  In x (held_by t1 (lk (reach ltb order progs sched))) -> In x (held_by t2 (lk (reach ltb order progs sched))) -> t1 = t2.
+Proof. exact reach_exclusive. Qed.
+Print Assumptions C07_locks_exclusive.
+
+Theorem C07_lock_table_invariant :
+  forall (K V : Type) (ltb : K -> K -> bool) order sched (progs : list (tid * list (cop K V))),
+  NoDup (map fst progs) -> lock_inv (fst (exec ltb order (init_st progs) sched)).
+Proof. exact lock_inv_reachable. Qed.
+Print Assumptions C07_lock_table_invariant.
